@@ -47,6 +47,7 @@ class VSelector(selectors.BaseSelector):
         self.loop: Optional['VLoop'] = None
         self.iterations = 0
         self._wall0 = None
+        self.tick = TICK
 
     def register(self, fileobj, events, data=None):
         key = selectors.SelectorKey(fileobj, fileobj if isinstance(fileobj, int) else fileobj.fileno(), events, data)
@@ -82,7 +83,7 @@ class VSelector(selectors.BaseSelector):
             if target > self.clock.t:
                 self.clock.t = target
         else:
-            self.clock.t += TICK   # executing ready callbacks takes (a little) time
+            self.clock.t += self.tick   # executing ready callbacks takes (a little) time
         return []
 
     def get_map(self):
@@ -374,11 +375,14 @@ class World:
     current: Optional['World'] = None
 
     def __init__(self, jitter_seed: int = 0, jitter_explicit: Optional[List[int]] = None, jitter_keyed: bool = False,
-                 delivery: Optional[Delivery] = None) -> None:
+                 delivery: Optional[Delivery] = None, tick: Optional[float] = None) -> None:
+        self.tick = tick
         self.clock = VClock()
         self.gseq = 0
         self.net = Net(self, delivery or Delivery())
         self.loop = VLoop(self.clock, self.net)
+        if tick is not None:
+            self.loop._selector.tick = tick    # virtual cost of one busy event-loop iteration (default 1 us)
         self.net.loop = self.loop
         self.errors: List[Dict[str, Any]] = []
         self.jitter = Jitter(self, jitter_seed, jitter_explicit, jitter_keyed)
